@@ -233,6 +233,8 @@ type propResult struct {
 	Unmodelled map[string]int
 	LoadS      float64
 	Extra      map[string]interface{}
+	World      *World
+	Exec       *Exec
 }
 
 func runProperty(w *World, prop, tier string, timeout int) *propResult {
@@ -272,6 +274,7 @@ func runProperty(w *World, prop, tier string, timeout int) *propResult {
 	}
 	discharge(mine, timeout)
 	res.Obls = mine
+	res.World, res.Exec = w, ex
 	for k, v := range ex.l0used {
 		res.L0[k] = v
 	}
@@ -351,6 +354,21 @@ func (r *propResult) report() int {
 			if !isKnown {
 				violations++
 				exit = 1
+				// follow the failure up on the real code where the function is within the replay harness's reach
+				for k, o := range byName[n] {
+					if o.Res.Status == "unsat" || k > 3 {
+						continue
+					}
+					tryReplay(r.World, r.Exec, o)
+					if o.replayed {
+						bad = o
+						break
+					}
+					if bad.replayNote == "" {
+						bad.replayNote = o.replayNote
+						bad.replayData = o.replayData
+					}
+				}
 				path := writeReplay(r.Prop, n, bad)
 				suffix := ""
 				if !bad.replayed {
@@ -445,6 +463,9 @@ func writeReplay(prop, name string, o *Obligation) string {
 		"property": prop, "obligation": name, "kind": o.Kind, "function": o.Fn, "clause": o.Note,
 		"path": o.Path, "solver_status": o.Res.Status, "solver": o.Res.Solver, "solver_output": o.Res.Raw, "model": o.Res.Model,
 		"replayed": o.replayed, "replay_result": o.replayNote,
+	}
+	if o.replayData != nil {
+		rec["replay"] = o.replayData
 	}
 	if o.Goal != nil {
 		rec["goal"] = o.Goal.String()
